@@ -274,7 +274,10 @@ JudgeFault(stb, ev) ==
           \cup (IF ~dl THEN {V1(P \o <<"C03">>, "no_double_drop")} ELSE {})
       diverged == ~ev.fired \/ ~hkOk \/ ~wf \/ ~pOk
       s2 == IF diverged THEN stb ELSE AdoptAfterPanic(stb, x, ev)
-  IN [st |-> s2, bad |-> diverged, viol |-> viol0 \cup (IF diverged THEN {} ELSE TdViol(s2, ev, P)) \cup ProtoViol(ev.mem, post.canary) \cup TdMemViol(ev)]
+      (* a clone_empty_in probe onto an allocating backend legitimately allocates, faulted or not: same exemption as in Judge *)
+      proto == ProtoViol(ProbeMem(a, ev.mem), post.canary)
+               \cup ProtoViol([j \in 1..Len(ev.mem) |-> IF ev.mem[j][1] \in {1, 2, 3} THEN <<0, 0, 0, 0, 0, 0>> ELSE ev.mem[j]], post.canary)
+  IN [st |-> s2, bad |-> diverged, viol |-> viol0 \cup (IF diverged THEN {} ELSE TdViol(s2, ev, P)) \cup proto \cup TdMemViol(ev)]
 
 Judge(stb, ev) ==
   LET a == ev.act IN
